@@ -14,11 +14,12 @@ call on a connection object (execute, commit, rollback, close) is recorded with 
 Checked: the child only touches connections it created; the parent keeps its pooled connection object and can go on using
 it; rows committed by either process are seen by the other.  Children leave with os._exit.
 """
-import json, os, signal, sqlite3, sys
+import json, os, signal, sqlite3, subprocess, sys
 from pony.orm import Database, Required, db_session, select, commit, flush
 from pony.orm.dbapiprovider import Pool
 from pony.orm.dbproviders.sqlite import SQLitePool
-import ponyutil
+try: import ponyutil
+except ImportError: ponyutil = None      # helper mode
 
 MARK = 'select 1'
 ROOT_PID = os.getpid()
@@ -223,11 +224,15 @@ def pool_tie(ctx, work):
         for s in FIXED: scripts.append((kind, s))
         for _ in range(ctx.scale(5, 150)): scripts.append((kind, random_script(rng, 14)))
     outs = ctx.driver('C36', [{'op': 'run', 'kind': k, 'events': s} for k, s in scripts])
-    for i, ((kind, script), out) in enumerate(zip(scripts, outs)):
+    # the real runs happen in a small helper process (this file run as a script): fork() of the big framework process is several times slower
+    hp = subprocess.run([sys.executable, os.path.abspath(__file__), '--helper', work], input=json.dumps(scripts), stdout=subprocess.PIPE, stderr=subprocess.PIPE, text=True, timeout=3000)
+    try: reals = json.loads(hp.stdout)
+    except ValueError: raise RuntimeError('C36 helper failed: ' + hp.stderr[-500:])
+    ctx.count('tie:real-runs-in-helper', len(reals))
+    for i, ((kind, script), out, real) in enumerate(zip(scripts, outs, reals)):
         if 'driver_error' in out:
             ctx.divergence('driver rejected the script', {'kind': kind, 'events': script}, model=out, impl=None); continue
         path = os.path.join(work, 'tie%d.sqlite' % (i % 7))
-        real = interp(kind, script, path)
         reps, cn = model_reports(out); model_fill(reps, cn, script, out)
         forks = sum(1 for e in script if e[0] == 'fork')
         ctx.case(['pool-tie', kind, script], nontrivial=forks > 0, kind='tie:pool-script:' + kind)
@@ -440,3 +445,10 @@ def run(ctx):
 
 def replay(ctx, data):
     run(ctx)
+
+if __name__ == '__main__' and len(sys.argv) >= 3 and sys.argv[1] == '--helper':
+    # helper mode: run every script of the JSON list on stdin on the real pool classes; print the list of reports
+    _work = sys.argv[2]
+    _scripts = json.load(sys.stdin)
+    _res = [interp(k, s, os.path.join(_work, 'tie%d.sqlite' % (i % 7))) for i, (k, s) in enumerate(_scripts)]
+    sys.stdout.write(json.dumps(_res)); sys.stdout.flush()
